@@ -878,39 +878,57 @@ Definition blank_empty_obj (kv : str * value) : str * value :=
   (fst kv, if is_empty_obj (snd kv) then sval [] else snd kv).
 
 (* ------------------------------------------------------------------------------------------------ *)
-(* 13. coverage phase: Template._serialize on the path container (generation/hypothesis/builder.py:   *)
-(*     305-321).  kwargs is a SHALLOW copy of the template.  The style serializer assigns into the    *)
-(*     dict it is given, i.e. into the template itself; quote_all works on a copy of it (since        *)
-(*     06d349e9) and _stringify_value builds a new dict (the output).                                 *)
+(* 13. coverage phase: Template._serialize on the path and query containers                           *)
+(*     (generation/hypothesis/builder.py:305-323).  kwargs is a SHALLOW copy of the template; the     *)
+(*     style serializer (since fcf952d0) and quote_all (since 06d349e9) are given a copy of the       *)
+(*     container, _stringify_value builds a new dict: the template is never modified.                 *)
 (* ------------------------------------------------------------------------------------------------ *)
-Definition stringify_v (v : value) : value :=
+Definition stringify_v (v : value) : value :=                  (* containers other than query *)
   match v with
   | VPrim p => sval (js_str p)
   | VArr l => sval (join [44] (map js_str l))
   | VObj l => VObj (map (fun kv => (fst kv, PStr (js_str (snd kv)))) l)
   end.
 Definition stringify_item (it : item) : item := map (fun kv => (fst kv, stringify_v (snd kv))) it.
-(* (template after the case, path_parameters of the case) *)
-Definition template_step (defs : list definition) (tmpl : item) : option (item * item) :=
-  obind (serialize3 defs tmpl)
-    (fun t1 => obind (quote_all t1) (fun t2 => Some (t1, stringify_item t2))).
-(* path_parameters of the (n+1)-th case built from one template *)
-Fixpoint template_nth (defs : list definition) (n : nat) (tmpl : item) : option item :=
-  match template_step defs tmpl with
+Definition stringify_q_v (v : value) : value :=                (* query: a list stays a list *)
+  match v with
+  | VPrim p => sval (js_str p)
+  | VArr l => VArr (map (fun p => PStr (js_str p)) l)
+  | VObj l => VObj (map (fun kv => (fst kv, PStr (js_str (snd kv)))) l)
+  end.
+Definition stringify_q_item (it : item) : item := map (fun kv => (fst kv, stringify_q_v (snd kv))) it.
+
+(* a step = (template after the case, container of the case) *)
+Definition step := item -> option (item * item).
+(* container of the (n+1)-th case built from one template *)
+Fixpoint iter_cases (st : step) (n : nat) (tmpl : item) : option item :=
+  match st tmpl with
   | None => None
-  | Some (t', out) => match n with O => Some out | S m => template_nth defs m t' end
+  | Some (t', out) => match n with O => Some out | S m => iter_cases st m t' end
   end.
 
-(* SENTINEL - the rule before 06d349e9 (finding C06-F9, fixed): quote_all assigned into the template as well.
-   Kept only for the witness that tells the two rules apart; not used by the correspondence. *)
-Definition template_step_inplace (defs : list definition) (tmpl : item) : option (item * item) :=
-  obind (serialize3 defs tmpl)
-    (fun t1 => obind (quote_all t1) (fun t2 => Some (t2, stringify_item t2))).
-Fixpoint template_nth_inplace (defs : list definition) (n : nat) (tmpl : item) : option item :=
-  match template_step_inplace defs tmpl with
-  | None => None
-  | Some (t', out) => match n with O => Some out | S m => template_nth_inplace defs m t' end
-  end.
+Definition path_output (defs : list definition) (tmpl : item) : option item :=
+  obind (serialize3 defs tmpl) (fun t1 => omap stringify_item (quote_all t1)).
+Definition query_output (defs : list definition) (tmpl : item) : option item :=
+  omap stringify_q_item (serialize3 defs tmpl).
+
+Definition template_step (defs : list definition) : step := fun tmpl => omap (fun out => (tmpl, out)) (path_output defs tmpl).
+Definition template_query_step (defs : list definition) : step := fun tmpl => omap (fun out => (tmpl, out)) (query_output defs tmpl).
+Definition template_nth (defs : list definition) : nat -> item -> option item := iter_cases (template_step defs).
+Definition template_query_nth (defs : list definition) : nat -> item -> option item := iter_cases (template_query_step defs).
+
+(* SENTINELS - earlier rules, kept only for the witnesses that tell them apart from the present one; not used by the correspondence.
+   (a) before fcf952d0 (finding C06-F10, fixed): the style serializer assigned into the template itself *)
+Definition template_step_ser_inplace (defs : list definition) : step :=
+  fun tmpl => obind (serialize3 defs tmpl) (fun t1 => omap (fun t2 => (t1, stringify_item t2)) (quote_all t1)).
+Definition template_query_step_ser_inplace (defs : list definition) : step :=
+  fun tmpl => omap (fun t1 => (t1, stringify_q_item t1)) (serialize3 defs tmpl).
+(* (b) before 06d349e9 (finding C06-F9, fixed): quote_all assigned into the template as well *)
+Definition template_step_inplace (defs : list definition) : step :=
+  fun tmpl => obind (serialize3 defs tmpl) (fun t1 => omap (fun t2 => (t2, stringify_item t2)) (quote_all t1)).
+Definition template_nth_ser_inplace (defs : list definition) := iter_cases (template_step_ser_inplace defs).
+Definition template_query_nth_ser_inplace (defs : list definition) := iter_cases (template_query_step_ser_inplace defs).
+Definition template_nth_inplace (defs : list definition) := iter_cases (template_step_inplace defs).
 
 (* values that quote_all leaves alone *)
 Definition quote_stable (s : str) : bool :=
